@@ -24,6 +24,10 @@ POOL = [
     ("USA", "yaml_net_baseline", 120, {"meat_cattle_head": 20000000, "kg_meat_per_large_animal": 150.0,
                                         "CROP_PRODUCTION_MULTIPLIER": 0.5, "MINIMUM_PERCENT_FED_BEFORE_NONHUMAN_CONSUMPTION_ALLOWED": 50}),
     ("ARG", "yaml_nw_reduced", 48, {"chicken_head": 1000000, "GRASSES_PRODUCTION_MULTIPLIER": 2, "RATIO_STOCKS_UNTOUCHED": 0.5}),
+    # a run that takes the rare "round 2 abandoned" path of the controller (mc/rare_paths.json) and the same country under a
+    # preset that does charge feed: a data-dependent decision remembered per country shows here
+    ("LSO", "yaml_nw_reduced", 120, {}),
+    ("LSO", "yaml_net_baseline", 120, {"shutoff": "continued_after_10_percent_fed"}),
 ]
 
 
